@@ -126,7 +126,7 @@ Fixpoint find_name (a : bytes) (l : list node) : option node :=
   | n :: r => if bytes_eqb (name_of n) a then Some n else find_name a r
   end.
 
-Inductive what : Type := WFile (n : node) | WDir (ch : list node) | WOther | WNone.
+Inductive what : Type := WFile (n : node) | WDir (ch : list node) | WFifo | WOther | WNone.
 
 Fixpoint descend (cur : list node) (cs : list bytes) : what :=
   match cs with
@@ -141,6 +141,7 @@ Fixpoint descend (cur : list node) (cs : list bytes) : what :=
           | [], None => match n with
                         | Reg _ _ | LinkFile _ _ => WFile n
                         | LinkNone _ => WNone
+                        | Fifo _ => WFifo
                         | _ => WOther
                         end
           | _, Some ch => descend ch rest
@@ -162,6 +163,7 @@ Definition classify (fs : list node) (arg : bytes) : what :=
       match descend fs (filter plain (split47 [] arg)) with
       | WFile n => if ends_in_slash_or_dot arg then WNone else WFile n
       | WOther => if ends_in_slash_or_dot arg then WNone else WOther
+      | WFifo => if ends_in_slash_or_dot arg then WNone else WFifo
       | w => w
       end
   end.
@@ -242,7 +244,19 @@ Fixpoint expect (fs : list node) (r : bool) (args : list bytes) : list item * bo
           else ([], true, false)
       | WFile (Reg _ _) => match expect fs r rest with (it, rf, le) => (IFile a 0 :: it, rf, le) end
       | WFile _ => match expect fs r rest with (it, rf, le) => (ILink a :: it, rf, le) end
-      | WOther => match expect fs r rest with (it, rf, _) => (IBad a :: it, rf, true) end
+      | WOther | WFifo => match expect fs r rest with (it, rf, _) => (IBad a :: it, rf, true) end
+      end
+  end.
+
+(* the arguments before the first FIFO that is named explicitly: opening it waits for a writer,
+   as every Unix filter does; this is not a directory entry met during a scan *)
+Fixpoint before_named_fifo (fs : list node) (args : list bytes) : option (list bytes) :=
+  match args with
+  | [] => None
+  | a :: rest =>
+      match classify fs a with
+      | WFifo => Some []
+      | _ => match before_named_fifo fs rest with Some l => Some (a :: l) | None => None end
       end
   end.
 
@@ -255,7 +269,25 @@ Definition check_C10 (op : bytes) (input impl : arg) : arg :=
   let oracle := arg_list (arg_nth 4 input) in
   let out := arg_bytes (arg_nth 0 impl) in
   let code := arg_Z (arg_nth 1 impl) in
-  if arg_bool (arg_nth 2 impl) then AS "the run blocked (killed after the timeout): later entries are never reported"
+  if arg_bool (arg_nth 2 impl) then
+    (* blocked: only acceptable while waiting on a FIFO named as an argument, after everything
+       before it has been reported *)
+    match spec_flags false argv with
+    | Some (r, (_ :: _) as args) =>
+        match before_named_fifo fs args with
+        | Some pre =>
+            match expect fs r pre with
+            | (items, false, _) =>
+                match consume oracle items out with
+                | AL [] => AL []
+                | _ => AS "the run blocked (killed after the timeout) before reaching the FIFO named as an argument: later entries are never reported"
+                end
+            | _ => AS "the run blocked (killed after the timeout): later entries are never reported"
+            end
+        | None => AS "the run blocked (killed after the timeout): later entries are never reported"
+        end
+    | _ => AS "the run blocked (killed after the timeout): later entries are never reported"
+    end
   else if arg_bool (arg_nth 3 impl) then AS "the process crashed (Go panic): the scan was aborted"
   else
     match spec_flags false argv with
